@@ -27,6 +27,7 @@ type PropCfg struct {
 	Assume    []string `json:"assumptions"`
 	Text      string   `json:"text"`
 	Inline    []string `json:"inline"` // callees inlined despite having a contract
+	Modular   []string `json:"modular"` // callees replaced by 'havoc everything reachable + contract' (cuts path explosion)
 	MaxPaths  int      `json:"max_paths"`
 	Bounded   []string `json:"bounded"`
 	BoundedTests []BoundedTest `json:"bounded_tests"`
@@ -264,6 +265,12 @@ func cmdCheck(argv []string) int {
 			cfg.NoContracts[qualifyAny(n)] = true
 		}
 	}
+	if len(pc.Modular) > 0 {
+		cfg.ForceModular = map[string]bool{}
+		for _, n := range pc.Modular {
+			cfg.ForceModular[qualifyAny(n)] = true
+		}
+	}
 	ex := NewExec(ld.Prog, ld.Specs, cfg)
 
 	// targets
@@ -296,7 +303,12 @@ func cmdCheck(argv []string) int {
 		}
 		ex.Cfg.NoContracts = nc
 		ex.paths = 0
+		n0 := len(ex.Obls)
+		t1 := time.Now()
 		ex.VerifyFunction(fn, ct)
+		if *verbose {
+			fmt.Printf("  explored %-60s paths=%d obligations+=%d %.1fs\n", ex.fnName(fn), ex.paths, len(ex.Obls)-n0, time.Since(t1).Seconds())
+		}
 		ex.Cfg.NoContracts = saveNC
 	}
 	done := map[string]bool{}
@@ -448,6 +460,20 @@ func cmdCheck(argv []string) int {
 		}
 	}
 	boundedResults = boundedEv
+	if traceCalls {
+		type kv struct {
+			k string
+			v int
+		}
+		var l []kv
+		for k, v := range callCount {
+			l = append(l, kv{k, v})
+		}
+		sort.Slice(l, func(i, j int) bool { return l[i].k < l[j].k })
+		for _, e := range l {
+			fmt.Fprintf(os.Stderr, "calls %6d %s\n", e.v, strings.ReplaceAll(e.k, modulePrefix+"/", ""))
+		}
+	}
 	if ex.pathCap {
 		fmt.Printf("note: path cap reached; some paths unexplored\n")
 	}
